@@ -30,6 +30,7 @@ func runC07(c *Ctx) {
 	r.Rule("C07.R1", "generateMatchedSDP, loop over remoteDescription.parsed.MediaDescriptions: on every path from the start of an iteration to the next one exactly one mediaSection is appended (at the tail) whose id is getMidValue of that iteration's m-section; the only other ways out of the loop body are error returns", 6)
 	r.Rule("C07.R2", "every append of a section after the remote loop is guarded by a true test of one boolean parameter (includeUnmatched), and CreateAnswer passes the constant false for it", 2)
 	r.Rule("C07.R3", "populateSDP: every iteration over the sections calls exactly one of addDataMediaSection / addTransceiverSDP (other exits are error returns); addDataMediaSection reaches a nil-error return only after exactly one descr.WithMedia; addTransceiverSDP after exactly one (full or rejected); nothing else calls WithMedia", 8)
+	r.Rule("C07.R5", "association keeps the media type: every non-nil transceiver satisfyTypeAndDirection returns is dominated by a branch establishing <it>.kind == the offered kind (the answer renders the transceiver's kind as the section's media type)", 1)
 	r.Rule("C07.R4", "the rejected section emitted by addTransceiverSDP has port 0, the first transceiver's kind as media name and a mid attribute taken from the mid parameter", 3)
 	r.NotCovered = append(r.NotCovered,
 		"media-type equality when the remote reuses a mid for another kind",
@@ -56,6 +57,7 @@ func c07Rules(c *Ctx) {
 	}
 	c07R3(env)
 	c07R3ErrChecked(env) // c07b.go
+	c07R5(env.c)
 	c07R4(env, "C07.R4")
 }
 
